@@ -13,7 +13,7 @@ pub fn string_error_optimization(source_unit: SourceUnit) -> HashSet<Loc> {
     let solidity_version = utils::get_solidity_version_from_source_unit(source_unit.clone())
         .expect("Could not extract Solidity version from source unit.");
 
-    if solidity_version.1 >= 8 && solidity_version.2 >= 4 {
+    if solidity_version >= (0, 8, 4) {
         //Extract the target nodes from the source_unit
         let target_nodes = ast::extract_target_from_node(Target::FunctionCall, source_unit.into());
 
